@@ -20,7 +20,8 @@ EXTENDS Integers, Sequences, FiniteSets, TLC, Json
 
 CONSTANTS Alphabet,   \* set of one-character strings
           MaxLen,     \* lines of length 0..MaxLen
-          Dump        \* TRUE: print the table line -> Lex(line) as JSON
+          Dump,       \* TRUE: print the table line -> Lex(line) as JSON
+          CC          \* parser.Config.CommentChar ("#" by default and in the documented format)
 
 VARIABLE line
 
@@ -92,10 +93,10 @@ NoteParse(t) ==
 
 Lex(l, inRecord) ==
   LET t == Trim(l, TrimText) IN
-  IF t = <<>> \/ l[1] = "#" THEN [k |-> "skip"]
+  IF t = <<>> \/ l[1] = CC THEN [k |-> "skip"]
   ELSE IF l[1] \notin {" ", "\t", "-"} THEN [k |-> "head", name |-> t]
   ELSE IF ~inRecord THEN [k |-> "orphan"]          \* indented line before any heading: ignored
-  ELSE IF t[1] = "#" THEN [k |-> "note", note |-> NoteParse(t)]
+  ELSE IF t[1] = CC THEN [k |-> "note", note |-> NoteParse(t)]      \* getMetadataPair strips "#" literally, whatever CC is
   ELSE LET p == LastIndexAny(t, Blank) IN
        IF p = 0 THEN [k |-> "badsyntax"]
        ELSE LET name == Trim(SubSeq(t, 1, p - 1), TrimText)
